@@ -259,9 +259,11 @@ func (h *histRec) record(client int, c cop, call, ret int64, out string) {
 	h.mu.Unlock()
 }
 
-func (r *concpRunner) checkLin(h *histRec, prefix []porcupine.Operation, where string) {
+func (r *concpRunner) checkLin(h *histRec, prefix []porcupine.Operation, where string) (ok bool) {
+	ok = true
 	all := append(append([]porcupine.Operation{}, prefix...), h.ops...)
 	if !porcupine.CheckOperations(regModel, all) {
+		ok = false
 		// describe the history
 		sort.Slice(all, func(i, j int) bool { return all[i].Call < all[j].Call })
 		var sb strings.Builder
@@ -271,6 +273,7 @@ func (r *concpRunner) checkLin(h *histRec, prefix []porcupine.Operation, where s
 		}
 		r.add("C11", "not-linearizable", where+": "+sb.String())
 	}
+	return ok
 }
 
 // current state as a prefix of sequential puts (so that a window/stress history can start from a non-empty store)
@@ -454,7 +457,33 @@ func (r *concpRunner) execWindow(hookID string, parkedOp cop, probes []string) {
 	blocked := 0
 	nops := 1
 	tickPending := false
+	var reopenDone chan struct{}
+	closedNil := false
 	for i, ps := range probes {
+		if ps == "reopen" {
+			// Close + reopen issued while the operation is parked (last probe only: nothing else runs while the persister is
+			// being replaced). Close returning nil promises that everything acknowledged before it is on disk (C09).
+			reopenDone = make(chan struct{})
+			go func() {
+				defer close(reopenDone)
+				old := r.p
+				if err := old.Close(); err != nil {
+					r.tag("window-reopen-close-error")
+					return
+				}
+				closedNil = true
+				np, err := openPersister(r.kind, r.dir, r.delay, r.batch)
+				if err != nil {
+					panic(err)
+				}
+				r.p = np
+			}()
+			select {
+			case <-reopenDone:
+			case <-time.After(150 * time.Millisecond):
+			}
+			continue
+		}
 		if ps == "tick" {
 			// let one timer flush happen while the operation is parked (persisters opened with timer=1 only)
 			if g := r.gate; g != nil && !tickPending {
@@ -511,8 +540,18 @@ func (r *concpRunner) execWindow(hookID string, parkedOp cop, probes []string) {
 		r.add("C11", "deadlock", fmt.Sprintf("window %s: %d of %d operations never returned", hookID, nops-n, nops))
 		return
 	}
+	if reopenDone != nil {
+		select {
+		case <-reopenDone:
+		case <-time.After(30 * time.Second):
+			r.add("C11", "deadlock", fmt.Sprintf("window %s: Close issued during the window never returned", hookID))
+			return
+		}
+	}
 	r.finalReads(h)
-	r.checkLin(h, pre, "window "+hookID)
+	if !r.checkLin(h, pre, "window "+hookID) && closedNil {
+		r.add("C09", "reopen-state-after-concurrent-flush", fmt.Sprintf("window %s: Close returned nil while a flush was in flight; the reopened persister does not hold the acknowledged writes", hookID))
+	}
 }
 
 // after quiescence read every key once more: the final state belongs to the history
@@ -623,6 +662,36 @@ func (r *concpRunner) execStress(seed int64, nt, nops int) {
 	_ = bytes.Equal
 }
 
+// concclose component (C09): the concp machinery restricted to the directed histories in which Close (and a reopen) arrive
+// while a flush is between taking the pending batch and having written it
+type concCloseComp struct{ concpComp }
+
+func init() { register("concclose", concCloseComp{}) }
+
+func (concCloseComp) Gen(rng *rand.Rand, tier string) [][]string { return closeWindowHistories() }
+
+// closeWindowHistories: Close (and a reopen) arrive while a flush is in flight (DB: between the size-triggered write and the reset
+// of the batch; SerialDB: after the batch swap, before the write) — whatever the flush has taken out of the pending batch must
+// be on disk before Close returns nil
+func closeWindowHistories() [][]string {
+	keys := []string{"01", "02", "03"}
+	var hs [][]string
+	for d := 0; d < 4; d++ {
+		kind, hook := "db", "db.size.betweenWriteAndReset"
+		if d%2 == 1 {
+			kind, hook = "serial", "serial.putBatch.afterSwap"
+		}
+		k1, k2, k3 := keys[d%3], keys[(d+1)%3], keys[(d+2)%3]
+		h := []string{fmt.Sprintf("begin concp kind=%s batch=3 timer=0 keys=%s", kind, strings.Join(keys, ","))}
+		h = append(h, fmt.Sprintf("wseq put:%s:%02x", k1, 0x90+d), fmt.Sprintf("wseq put:%s:%02x", k2, 0x94+d))
+		h = append(h, fmt.Sprintf("window %s put:%s:%02x reopen", hook, k3, 0x98+d))
+		h = append(h, fmt.Sprintf("wseq put:%s:%02x", k1, 0x9a+d), "wseq rm:"+k2)
+		h = append(h, fmt.Sprintf("window %s put:%s:%02x get:%s reopen", hook, k3, 0x9c+d, k1))
+		hs = append(hs, h)
+	}
+	return hs
+}
+
 func (concpComp) Gen(rng *rand.Rand, tier string) [][]string {
 	nh := 40
 	nstress := 6
@@ -685,6 +754,7 @@ func (concpComp) Gen(rng *rand.Rand, tier string) [][]string {
 		h = append(h, fmt.Sprintf("window db.size.betweenWriteAndReset rm:%s put:%s:%02x has:%s", k3, k1, 0xae+d, k1))
 		hs = append(hs, h)
 	}
+	hs = append(hs, closeWindowHistories()...)
 	for i := 0; i < nh; i++ {
 		kind := pick(rng, "db", "serial")
 		batch := pick(rng, 1, 2, 2, 3, 4)
